@@ -497,9 +497,9 @@ class Spy(Observable):
 
 
 def make_sequence(basis, T):
-    reg = Register.from_coordinates([(0.0, 0.0), (7.0, 0.0)], prefix="q")
+    reg = Register.from_coordinates([(0.0, 0.0), (7.0, 0.0)][:1 if basis == "ising1" else 2], prefix="q")
     seq = Sequence(reg, MockDevice)
-    if basis in ("ising", "all"):
+    if basis in ("ising", "ising1", "all"):
         seq.declare_channel("ryd", "rydberg_global")
         seq.add(Pulse.ConstantPulse(T, 9.0, -4.0, 0.5), "ryd")
     if basis in ("digital", "all"):
@@ -512,6 +512,9 @@ def make_sequence(basis, T):
 
 
 def noise_model(kind):
+    if kind.startswith("prep") and "r" in kind[4:]:      # "prep<100*eta>r<runs>": only state-preparation errors
+        eta, runs = kind[4:].split("r")
+        return NoiseModel(state_prep_error=int(eta) / 100, runs=int(runs), samples_per_run=1)
     return {
         "none": lambda: NoiseModel(),
         "dephasing": lambda: NoiseModel(dephasing_rate=2.0),
@@ -525,8 +528,12 @@ def noise_model(kind):
     }[kind]()
 
 
-ONE = {"ising": "r", "all": "r", "digital": "h", "xy": "d"}
-STOCHASTIC = ("prep", "doppler", "amplitude")
+ONE = {"ising": "r", "ising1": "r", "all": "r", "digital": "h", "xy": "d"}
+GROUND = {"ising": "g", "ising1": "g", "all": "g", "digital": "g", "xy": "u"}    # level every atom starts in
+
+
+def stochastic(noise):
+    return noise.startswith("prep") or noise in ("doppler", "amplitude")
 
 
 def own_times(p, o, den):
@@ -634,9 +641,21 @@ def check_times_backend(rec, out):
     # fidelity target / expectation operator in the eigenbasis of the emulation
     es = tuple(QutipEmulator.from_sequence(seq).samples_obj.eigenbasis)
     dq = len(es)
-    tgt = QutipState.from_state_amplitudes(eigenstates=es, amplitudes={es[0] + es[1]: 0.6, es[1] + es[0]: 0.8j})
-    xop = QutipOperator.from_operator_repr(eigenstates=es, n_qudits=2, operations=[
-        (1.0, [({es[0] + es[1]: 1.0, es[1] + es[1]: 2.0j}, {0})]), (0.5, [({es[0] + es[0]: 1.0}, {0, 1})])])
+    nq = len(seq.register.qubit_ids)
+    if nq == 2:
+        tgt = QutipState.from_state_amplitudes(eigenstates=es,
+                                               amplitudes={es[0] + es[1]: 0.6, es[1] + es[0]: 0.8j})
+    else:
+        tgt = QutipState.from_state_amplitudes(eigenstates=es, amplitudes={es[0]: 0.6, es[1]: 0.8j})
+    xop = QutipOperator.from_operator_repr(eigenstates=es, n_qudits=nq, operations=[
+        (1.0, [({es[0] + es[1]: 1.0, es[1] + es[1]: 2.0j}, {0})]),
+        (0.5, [({es[0] + es[0]: 1.0}, set(range(nq)))])])
+    # realisation-independent facts of the state the observables are computed from (whatever the
+    # noise realisations were): occupation of every level, <identity>
+    ident = Expectation(QutipOperator.from_operator_repr(eigenstates=es, n_qudits=nq, operations=[(1.0, [])]),
+                        evaluation_times=ownB, tag_suffix="id")
+    occ_lv = {lv: Occupation(evaluation_times=ownB, one_state=lv, tag_suffix="lv" + lv) for lv in es}
+    extras = [ident] + list(occ_lv.values())
     grpA = [Occupation(evaluation_times=ownA, one_state=one), EnergySecondMoment(evaluation_times=ownA),
             Fidelity(tgt, evaluation_times=ownA), BitStrings(evaluation_times=ownA, num_shots=50, one_state=one)]
     grpB = [Energy(evaluation_times=ownB), EnergyVariance(evaluation_times=ownB),
@@ -646,12 +665,12 @@ def check_times_backend(rec, out):
     SPYLOG.pop(spy.uuid, None)
     np.random.seed((seed() + crc(p)) % (2 ** 32))
     try:
-        cfg = QutipConfig(observables=grpA + grpB + [spy], default_evaluation_times=default_times(p),
+        cfg = QutipConfig(observables=grpA + grpB + extras + [spy], default_evaluation_times=default_times(p),
                           noise_model=nm)
         res = QutipBackendV2(seq, config=cfg).run()
     except Exception as e:  # noqa: BLE001
         out.check(False, {**sig0, "clause": "backend_run", "exc": type(e).__name__, "dim": dq, "cause": cause(e),
-                          "branch": "stochastic" if noise in STOCHASTIC else "single_run",
+                          "branch": "stochastic" if stochastic(noise) else "single_run",
                           "default_times": "array_size_ne_1" if array_default(p) else "size_1_or_Full"},
                   {**det, "err": str(e)[:200]})
         return
@@ -690,7 +709,7 @@ def check_times_backend(rec, out):
                 mixed_cls = "ket" if q.isket else ("mixed" if (q * q).tr().real < 1 - 1e-6 else "pure_dm")
                 rho = q.full() @ q.full().conj().T if q.isket else q.full()
                 Hf = Hm.to_qobj().full()
-                occ, corr, e, m2, var = np_obs(rho, Hf, 2, dq, es.index(one))
+                occ, corr, e, m2, var = np_obs(rho, Hf, nq, dq, es.index(one))
                 hs = max(1.0, float(np.abs(Hf).sum(axis=1).max()))
                 tag = o._base_tag
                 sg = {**sig0, "clause": tag, "state": mixed_cls}
@@ -716,13 +735,44 @@ def check_times_backend(rec, out):
                 elif tag == "state":
                     out.check(v == S, sg, dd)
                 elif tag == "bitstrings":
-                    ok = isinstance(v, Counter) and sum(v.values()) == 50 and all(len(k) == 2 for k in v)
+                    ok = isinstance(v, Counter) and sum(v.values()) == 50 and all(len(k) == nq for k in v)
                     if ok and noise != "meas":
-                        bpr = {format(b, "02b"): sum(np.real(rho[r, r]) for r in range(dq * dq)
-                                                     if [int((r // dq) == es.index(one)), int((r % dq) == es.index(one))]
-                                                     == [b >> 1, b & 1]) for b in range(4)}
+                        pos = es.index(one)
+                        bpr = {}
+                        for r in range(dq ** nq):
+                            key = "".join("1" if (r // dq ** (nq - 1 - k)) % dq == pos else "0" for k in range(nq))
+                            bpr[key] = bpr.get(key, 0.0) + float(np.real(rho[r, r]))
                         ok = all(bpr[k] > 1e-9 for k in v)     # sample() drops p < 1/(1000 shots) = 2e-5
                     out.check(ok, sg, dd)
+    # Facts that hold for ANY noise realisation: the state every observable is computed from is a
+    # state (unit trace, also when realisations are averaged with multiplicities), <identity> = 1, the
+    # occupations of all levels of an atom add up to 1, at t = 0 every atom is in its initial level;
+    # if every atom is badly prepared (state_prep_error = 1) nothing ever leaves that level.
+    st_obs = grpB[-1]
+    try:
+        st_times = res.get_result_times(st_obs)
+    except ValueError:
+        st_times = []
+    gpos = GROUND[basis]
+    for t in st_times:
+        dd = {**det, "t": float(t)}
+        q = res.get_result(st_obs, t).to_qobj()
+        tr = float(q.norm() ** 2) if q.isket else float(q.tr().real)
+        out.check(abs(tr - 1.0) <= 1e-4, {**sig0, "clause": "state_unit_trace"}, {**dd, "trace": tr})
+        try:
+            idv = res.get_result(ident, t)
+            lv = {k: np.real(np.asarray(res.get_result(o, t), dtype=complex)) for k, o in occ_lv.items()}
+        except ValueError:
+            out.check(False, {**sig0, "clause": "stored_times", "class": "other", "observable": "extras"}, dd)
+            continue
+        out.check(abs(idv - 1.0) <= 1e-4, {**sig0, "clause": "identity_expectation"}, {**dd, "got": str(idv)})
+        tot = sum(lv.values())
+        out.check(bool(np.all(np.abs(tot - 1.0) <= 1e-4)), {**sig0, "clause": "occupation_sum"},
+                  {**dd, "got": {k: v.tolist() for k, v in lv.items()}})
+        if abs(float(t)) <= 1e-12 or noise.startswith("prep100r"):
+            ok = all(np.all(np.abs(v - (1.0 if k == gpos else 0.0)) <= 1e-6) for k, v in lv.items())
+            out.check(ok, {**sig0, "clause": "initial_occupation" if abs(float(t)) <= 1e-12
+                           else "all_atoms_unprepared"}, {**dd, "got": {k: v.tolist() for k, v in lv.items()}})
 
 
 # ------------------------------------------------------------------------------------------
@@ -861,6 +911,12 @@ def times_constants(quick):
             if not quick:
                 bp.append(bpt(24, tdef(True, []), [none, mid], basis, noise))
                 bp.append(bpt(100, half, [town(True, [4, 9]), three], basis, noise))
+    # state-preparation errors only (each realisation is a ket, identical bad-atom configurations are
+    # grouped with a multiplicity): 1 and 2 atoms, observables at t = 0, 1/4, 1
+    for basis in ("ising1", "ising"):
+        for eta in (30, 100):
+            for nruns in (1, 8, 40):
+                bp.append(bpt(40, one, [three, three], basis, f"prep{eta}r{nruns}"))
     return {"Mode": '"times"', "NObs": "2", "Times": "{0}", "Depth": "0", "Durations": durs,
             "DefChoices": tla_set(defs), "OwnChoices": tla_set(owns), "BackendPts": tla_set(bp)}
 
